@@ -262,7 +262,7 @@ func c20Scenario() *Scenario {
 	}
 	g := BaseGenesis(accts...)
 	g.Whitelist = []string{"P1", "P2"}
-	s := &Scenario{Name: "lists", Genesis: g, KeyTimeNs: false, Visit: listQueries}
+	s := &Scenario{Name: "lists", Genesis: g, KeyTimeNs: false, Visit: listQueries, VisitPure: true}
 	ms := time.Millisecond
 	add := func(a ...Action) { s.Actions = append(s.Actions, a...) }
 	pre := func(a Action) { add(a); s.Prefix = append(s.Prefix, a.Name) }
